@@ -172,6 +172,28 @@ pub fn gen_values(rng: &mut Rng, ty: ElemTy, n: usize, allow_extremes: bool, all
     (raws, style)
 }
 
+/// make Ord-equal elements distinguishable: random tags for Keyed records,
+/// a mix of 0.0 and -0.0 for floats (only where the property compares bit patterns)
+pub fn add_identity_noise(rng: &mut Rng, ty: ElemTy, raws: &mut [i64]) {
+    match ty {
+        ElemTy::Keyed => {
+            for r in raws.iter_mut() {
+                *r = (*r & !0xffff_ffff) | rng.below(1 << 16) as i64;
+            }
+        }
+        ElemTy::N64 | ElemTy::F64 | ElemTy::F32 => {
+            if rng.chance(1, 3) {
+                for r in raws.iter_mut() {
+                    if rng.chance(1, 3) {
+                        *r = ty.raw_of_f64(if rng.chance(1, 2) { 0.0 } else { -0.0 });
+                    }
+                }
+            }
+        }
+        _ => {}
+    }
+}
+
 /// overwrite some cells with the missing value according to a pattern
 pub fn apply_missing(rng: &mut Rng, ty: ElemTy, raws: &mut [i64]) {
     if raws.is_empty() {
@@ -227,15 +249,25 @@ pub fn gen_strat(rng: &mut Rng) -> Strat {
 }
 
 fn oor_index(rng: &mut Rng, n: usize) -> u64 {
+    // every value returned is >= n: just past the end, far past it, and the
+    // values where signed / narrower arithmetic wraps around
     let n = n as u64;
-    match rng.below(6) {
-        0 => n,
-        1 => n + 1,
-        2 => n + 2 + rng.below(20) as u64,
-        3 => u64::MAX / 2,
+    let small = rng.below(n as usize + 3) as u64;
+    let v = match rng.below(14) {
+        0 | 1 => n,
+        2 => n + 1,
+        3 => n + 2 + rng.below(20) as u64,
         4 => u64::MAX,
+        5 | 6 => u64::MAX - small,
+        7 => u64::MAX / 2,
+        8 => (u64::MAX / 2).wrapping_add(1 + small),
+        9 => u64::MAX / 2 - small,
+        10 => (1u64 << 32) + small,
+        11 => (1u64 << 31) + small,
+        12 => n.wrapping_add(rng.next() >> rng.below(60)),
         _ => n + rng.below(3) as u64,
-    }
+    };
+    v.max(n)
 }
 
 fn pick_lane(rng: &mut Rng, shape: &[usize]) -> Option<(Option<(usize, usize)>, usize)> {
@@ -262,6 +294,14 @@ fn lens_for(rng: &mut Rng, nd: usize, lane_max: usize, other_max: usize, allow_z
         .map(|a| {
             if a == long {
                 let lo = if allow_zero && rng.chance(1, 12) { 0 } else { 1 };
+                // a few long lanes in every tier: worst-case chains, round caps and
+                // size thresholds inside the library are only reachable there
+                if rng.chance(1, 40) {
+                    return 64 + rng.below(257);
+                }
+                if rng.chance(1, 16) {
+                    return lo.max(rng.below(101));
+                }
                 // bias towards small lengths, where the space saturates
                 if rng.chance(1, 2) {
                     lo.max(rng.below(5.min(lane_max) + 1)).max(lo)
@@ -274,6 +314,8 @@ fn lens_for(rng: &mut Rng, nd: usize, lane_max: usize, other_max: usize, allow_z
                 1 + rng.below(other_max)
             }
         })
+        .collect::<Vec<usize>>()
+        .into_iter()
         .collect()
 }
 
@@ -321,14 +363,15 @@ pub fn gen_array_scenario(prop: Prop, rng: &mut Rng, tier: Tier) -> Scenario {
     let thorough = tier == Tier::Thorough;
     match prop {
         Prop::C02 => {
-            let ty = *rng.pick(&ORD_TYPES);
+            let ty = if rng.chance(1, 8) { ElemTy::Keyed } else { *rng.pick(&ORD_TYPES) };
             let big = if thorough { if rng.chance(1, 100) { 300 } else { 64 } } else { 12 };
             let nd = if rng.chance(1, 5) { 2 } else { 1 };
             let lens = lens_for(rng, nd, big, 3, false);
             let flag_ = rng.chance(1, 4);
             let (parent_shape, view) = gen_view(rng, &lens, flag_);
             let total: usize = parent_shape.iter().product();
-            let (data, _) = gen_values(rng, ty, total, true, true);
+            let (mut data, _) = gen_values(rng, ty, total, ty != ElemTy::Keyed, true);
+            add_identity_noise(rng, ty, &mut data);
             let mut scn = Scenario { prop: "C02".into(), elem: ty, static_dim: false, parent_shape, data, view, ops: vec![] };
             let shape = scn.view_shape();
             for _ in 0..1 + rng.below(6) {
@@ -519,7 +562,8 @@ pub fn gen_array_scenario(prop: Prop, rng: &mut Rng, tier: Tier) -> Scenario {
         }
         Prop::C03 => {
             let ty = match rng.below(10) {
-                0..=2 => ElemTy::I32,
+                0..=1 => ElemTy::I32,
+                2 => ElemTy::Keyed,
                 3..=4 => ElemTy::F64,
                 5..=6 => ElemTy::OptI32,
                 7 => *rng.pick(&ORD_TYPES),
@@ -533,6 +577,7 @@ pub fn gen_array_scenario(prop: Prop, rng: &mut Rng, tier: Tier) -> Scenario {
             let (parent_shape, view) = gen_view(rng, &lens, flag_);
             let total: usize = parent_shape.iter().product();
             let (mut data, style) = gen_values(rng, ty, total, false, false);
+            add_identity_noise(rng, ty, &mut data);
             if ty.is_maybe_nan() {
                 apply_missing(rng, ty, &mut data);
             }
@@ -672,7 +717,16 @@ pub fn gen_det_bulk_op(rng: &mut Rng) -> Op {
         let axis = rng.below(nd);
         op.axis = axis;
         let data: Vec<i64> = (0..total).map(|_| rng.range(-400, 400)).collect();
-        let weights: Vec<i64> = (0..shape[axis]).map(|_| rng.range(1, 40)).collect();
+        // weights: mostly positive, sometimes with zeros (leading / everywhere) or mixed signs
+        let wmode = rng.below(6);
+        let weights: Vec<i64> = (0..shape[axis])
+            .map(|j| match wmode {
+                0 => if j == 0 || rng.chance(1, 3) { 0 } else { rng.range(1, 40) },
+                1 => rng.range(-20, 20),
+                2 => 0,
+                _ => rng.range(1, 40),
+            })
+            .collect();
         // aux: shape, data, weights, [elem kind: 0 f64, 1 i64, 2 f32], [layout: 0 C, 1 F]
         op.aux = vec![shape, data, weights, vec![rng.below(3) as i64], vec![rng.below(2) as i64]];
         op.idx = vec![rng.below(2) as u64]; // ddof numerator (0 or 1)
